@@ -70,7 +70,7 @@ def checkOnce (p : Prog) (src : Src) (ts : TS) : Once :=
   let o := p.run src { ts with ctxCount := 0 }
   let c := cleanupPhase o.ts
   let err0 : Option Err := match c.err with
-    | some e => some e
+    | some e => some (e.nest (cleanupCtx o.res o.ts))
     | none => match o.res with | .error e => some e | .ok _ => none
   let err : Option Err := match c.ts.failed with
     | some m => (match err0 with
